@@ -28,13 +28,13 @@ type fcase struct {
 	Bal    string `json:"balancer"`
 }
 
-var modes = []string{"zero-healthy", "unknown-model", "all-refuse", "all-reset", "all-eof", "all-garbage", "backend-400", "backend-404", "backend-429", "backend-500", "backend-503", "backend-500-nonjson", "backend-500-ansi", "unknown-model-ctrl", "backend-500-large", "backend-400-huge-chunked", "malformed-200-json", "empty-200", "200-empty-object", "200-no-choices", "200-choice-without-message", "200-error-member-only"}
+var modes = []string{"zero-healthy", "unknown-model", "all-refuse", "all-reset", "all-eof", "all-garbage", "all-circuit-open", "backend-400", "backend-404", "backend-429", "backend-500", "backend-503", "backend-500-nonjson", "backend-500-ansi", "unknown-model-ctrl", "backend-500-large", "backend-400-huge-chunked", "malformed-200-json", "empty-200", "200-empty-object", "200-no-choices", "200-choice-without-message", "200-error-member-only"}
 var routes = []string{"proxy", "provider", "passthrough", "translated"}
 
 func TestC05(t *testing.T) {
 	world.Quiet()
 	run := rep.New("C05", "fault_enumeration",
-		"every failure mode (no healthy endpoint, unknown model, every candidate refusing / resetting / closing without answer / answering garbage, backend 400/404/429/500/503 with JSON and non-JSON error bodies of 60 B, 21 KB and 300 KB (chunked) and with control characters / ANSI escapes in the message, an unknown model whose name contains control characters, malformed or empty 200 bodies) x route family (proxy, provider, Anthropic passthrough, Anthropic translated) x stream flag x engine (thorough: x balancer x 20 repetitions, because the streaming pipe hand-off is schedule-dependent); proxy timeouts are 30 s so that 'waited for a timeout' is visible; oracle: non-2xx with a non-empty error body, completion within 10 s (healthy: milliseconds), Anthropic error object with Content-Type application/json for errors Olla produces on the Anthropic routes (streaming too, no message_start..message_stop sequence), backend 4xx/5xx status unchanged. distinct = distinct grid cell")
+		"every failure mode (no healthy endpoint, unknown model, every candidate refusing / resetting / closing without answer / answering garbage / skipped because its engine circuit is open, backend 400/404/429/500/503 with JSON and non-JSON error bodies of 60 B, 21 KB and 300 KB (chunked) and with control characters / ANSI escapes in the message, an unknown model whose name contains control characters, malformed or empty 200 bodies) x route family (proxy, provider, Anthropic passthrough, Anthropic translated) x stream flag x engine (thorough: x balancer x 20 repetitions, because the streaming pipe hand-off is schedule-dependent); proxy timeouts are 30 s so that 'waited for a timeout' is visible; oracle: non-2xx with a non-empty error body, completion within 10 s (healthy: milliseconds), Anthropic error object with Content-Type application/json for errors Olla produces on the Anthropic routes (streaming too, no message_start..message_stop sequence), backend 4xx/5xx status unchanged. distinct = distinct grid cell")
 	run.Assume("the 10 s completion bound is one third of the smallest configured timeout (30 s) and ~1000x the healthy value; a machine slow enough to miss it would also trip the 30 s timeouts")
 	engines := []string{"sherpa", "olla"}
 	bals := []string{"priority"}
@@ -200,6 +200,18 @@ func oneCase(run *rep.Run, w *world.World, hc *http.Client, bA, bB *backend.Std,
 	default:
 		path = "/olla/anthropic/v1/messages"
 		body = fmt.Sprintf(`{"model":"%s","max_tokens":16,"stream":%v,"messages":[{"role":"user","content":"%s"}]}`, model, c.Stream, nonce)
+	}
+	if c.Mode == "all-circuit-open" {
+		// every candidate hangs up before answering until the olla engine's breaker for it is
+		// open (a hang-up is not a connection error, so the endpoint stays in the candidate
+		// set); the judged request then finds nothing but open circuits. On sherpa, which has
+		// no engine breaker, this is the all-eof case once more.
+		target.SetProxy(func(*backend.Record) *backend.Resp { return &backend.Resp{Fault: "eof_before_headers"} })
+		for k := 0; k < 6; k++ {
+			pr, _ := http.NewRequest("POST", w.Base+path, bytes.NewReader([]byte(body)))
+			pr.Header.Set("Content-Type", "application/json")
+			client.Do(hc, pr)
+		}
 	}
 	req, _ := http.NewRequest("POST", w.Base+path, bytes.NewReader([]byte(body)))
 	req.Header.Set("Content-Type", "application/json")
